@@ -17,6 +17,28 @@ CLAIMS: dict[str, dict] = {
                 "Set-level statement is checked by the spec predicate on every case; its Lean proof covers single policies (sets: see DESIGN).",
         "technique": "Lean 4 proof over a hand-written model + differential correspondence check",
     },
+    "C15": {
+        "text": "Lean theorems, each an induction over an arbitrary op history from the empty cache (any capacity incl. <= 0, any purge prefix, "
+                "any value type): c15_inv (no duplicate keys, never more than max(maxsize,0) entries), c15_refines_map / c15_sound_cache (a get "
+                "returns None or the latest value set since the last delete/clear, never one whose deadline is reached), c15_get_latest (exact get "
+                "result under a monotone clock: latest value unless expired `<=`, deleted, cleared or capacity-evicted; ttl None/0/negative never "
+                "expires), c15_evict_only_lru (a capacity victim: dict over-full, >= maxsize distinct other keys stored or found since, every "
+                "survivor touched more recently, <= 1 victim per set when maxsize >= 1 - the full counting statement, not a partial), "
+                "c15_lru_exact_no_ttl, c15_trace_ok (the decidable observation spec the driver evaluates on the implementation holds of every model "
+                "history), c15_atomic_ops (all accesses under the one lock => every interleaving of single accesses by any number of threads is the "
+                "sequential history of whole calls in lock-acquisition order) with the per-run obligation C15_locked over lock facts extracted from "
+                "cache.py by AST. Tie: exhaustive op trees + seeded random sequences (dict > 128 entries, clocks exactly on deadlines) compared on "
+                "(result, key order of _data) after every call; Lean spec evaluated on the implementation's observations; 2-8 real threads replayed "
+                "in lock order and tiny histories brute-force linearised against the model.",
+        "design_ref": "DESIGN.md §5 C15",
+        "note": "Trusted: Lean kernel; hand-written model Model/Cache.lean validated differentially (not verified) against cache.py; the AST "
+                "extractor (lock facts, purge prefix); the interleaving semantics Model/CacheLock.lean (lock held over a run of consecutive "
+                "flagged accesses). Cannot exhibit: that threading.RLock is a correct mutex and that `with` releases it. Model domain: integer "
+                "clock, int/None ttl, str keys. c15_get_latest assumes a monotone clock (time.monotonic); the other theorems do not. "
+                "A change that only alters which expired entries linger in _data (e.g. purge `<`) breaks the correspondence but not the "
+                "property as stated: it is reported with no-failing-input-found.",
+        "technique": "Lean 4 proof over a hand-written model + extracted lock-discipline obligation + differential correspondence check (sequential and concurrent)",
+    },
 }
 
 ALL = [f"C{i:02d}" for i in range(1, 21)]
